@@ -10,7 +10,7 @@ RULE = ("For each game four real executions are compared bit for bit: Model(tau=
         "Model(tau=t', other...).rate(g, tau=t) for t in {0, 0.0, 1e-9beta, default, beta, 10beta, int 1} and a different "
         "model-level t'; Model(limit_sigma=b).rate(g) vs Model(limit_sigma=not b).rate(g, limit_sigma=b); both options "
         "omitted vs both passed explicitly; and a model whose public tau / limit_sigma attributes were ASSIGNED after "
-        "construction vs a model constructed with those values. Games are built so the options matter (sigma small against tau; weak evidence "
+        "construction vs a model constructed with those values; a model on which a call carrying OTHER per-call values has just FAILED (rejected as malformed, or the gamma callback raised inside the update) vs a fresh model, arguments omitted; and a model whose copy.copy / copy.deepcopy was given other settings vs a fresh model. Games are built so the options matter (sigma small against tau; weak evidence "
         "so limit_sigma binds). Non-trivial: a third execution shows that the two settings of the option give different "
         "results on that game, so equality is informative; distinct by canonical hash of (game, option values).")
 ASSUMPTIONS = ["same code path on same float inputs => bit equality (T1)"]
@@ -20,7 +20,7 @@ REACH = ["rate"]
 def floors(tier):
     q = tier == "quick"
     return {"tau/per-call==model": 6000 if q else 960000, "limit/per-call==model": 6000 if q else 960000,
-            "omitted==explicit": 6000 if q else 960000, "attribute-assigned==constructed": 6000 if q else 960000, "tau=0": 1500 if q else 240000, "limit=False-over-True": 1500 if q else 240000}
+            "omitted==explicit": 6000 if q else 960000, "attribute-assigned==constructed": 6000 if q else 960000, "omitted==model/after-failed-call": 5000 if q else 800000, "copied-model/independent": 10000 if q else 1600000, "tau=0": 1500 if q else 240000, "limit=False-over-True": 1500 if q else 240000}
 
 
 def generate(ctx):
@@ -126,6 +126,61 @@ def probe_opt(ctx, payload):
         ctx.violation("all-attributes-assigned==constructed", "opt", payload,
                       dict(target={k_: v_ for k_, v_ in target.items()}, constructed=runs["both_omitted"].res[0][0],
                            assigned=None if o_all.exc else [o_all.res[0][0].mu, o_all.res[0][0].sigma]), model, reg)
+    # --- the model's own setting after a FAILED call that carried per-call options: a call that is rejected, or in the
+    #     middle of which the application's gamma callback raises, must not leave its per-call values on the model
+    import copy as _copy
+
+    def _hex(o):
+        return None if o.exc else [x.hex() for t_ in o.res for p_ in t_ for x in (float(p_.mu), float(p_.sigma))]
+
+    if not any(len(t_) == 5 for t_ in case["teams"]):
+        c_boom = dict(case, cfg=dict(case["cfg"], tau=t, limit_sigma=lim, gamma="boom"), call={})
+        m_x, teams_x, kw_x = build(c_boom)
+        m_y, teams_y, kw_y = build(c_boom)
+        five = [[m_x.rating(name=f"f{i}") for i in range(5)], [m_x.rating(name="g")]]
+        o_f1 = observe(m_x, "rate", five, tau=t_other, limit_sigma=(not lim))  # raises inside the update
+        o_f2 = observe(m_x, "rate", [[m_x.rating()], [m_x.rating()]], ranks=[1], tau=t_other, limit_sigma=(not lim))  # rejected
+        o_x = observe(m_x, "rate", teams_x, **kw_x)
+        o_y = observe(m_y, "rate", teams_y, **kw_y)
+        ctx.ev("omitted==model/after-failed-call")
+        if o_f1.exc is not None:
+            ctx.count("failed_calls_with_per_call_options")
+        if o_y.exc is None and _hex(o_x) != _hex(o_y):
+            ctx.violation("omitted==model/after-failed-call", "opt", payload,
+                          dict(t=t, limit_sigma=lim, per_call_of_failed_call=dict(tau=t_other, limit_sigma=(not lim)),
+                               failed=[repr(o_f1.exc)[:80], repr(o_f2.exc)[:80]],
+                               fresh=None if o_y.exc else [o_y.res[0][0].mu, o_y.res[0][0].sigma],
+                               after_failed=None if o_x.exc else [o_x.res[0][0].mu, o_x.res[0][0].sigma]), model, reg)
+    # --- a COPY of the model (copy.copy / copy.deepcopy) is a model of its own: assigning tau / limit_sigma on the copy
+    #     must not reconfigure the original, and the copy must use what was assigned to it
+    c_cp = dict(case, cfg=dict(case["cfg"], tau=t, limit_sigma=lim), call={})
+    for how in ("copy", "deepcopy"):
+        m_o, teams_o, kw_o = build(c_cp)
+        try:
+            m_c = getattr(_copy, how)(m_o)
+        except Exception:  # noqa: BLE001 - a model that cannot be copied (a callback that cannot be deep-copied) is skipped
+            ctx.skip("model-copy")
+            continue
+        m_c.tau = float(t_other)
+        m_c.limit_sigma = (not lim)
+        o_o = observe(m_o, "rate", teams_o, **kw_o)
+        ctx.ev("copied-model/independent")
+        if _hex(o_o) != f["both_omitted"]:
+            ctx.violation("copied-model/independent", "opt", payload,
+                          dict(how=how, t=t, limit_sigma=lim, assigned_on_copy=dict(tau=t_other, limit_sigma=(not lim)),
+                               original_now=None if o_o.exc else [o_o.res[0][0].mu, o_o.res[0][0].sigma],
+                               expected=runs["both_omitted"].res[0][0]), model, reg)
+        m_c.tau = float(t)
+        m_c.limit_sigma = lim
+        _, teams_c, kw_c = build(c_cp)
+        if type(m_c) is type(m_o):
+            # rating objects made by the original's class are this model's own rating objects
+            o_c = observe(m_c, "rate", teams_c, **kw_c)
+            if _hex(o_c) != f["both_omitted"]:
+                ctx.violation("copied-model/independent", "opt", payload,
+                              dict(how=how, which="the copy itself", t=t, limit_sigma=lim,
+                                   got=None if o_c.exc else [o_c.res[0][0].mu, o_c.res[0][0].sigma],
+                                   expected=runs["both_omitted"].res[0][0]), model, reg)
     tau_matters = f["tau_model"] != f["tau_otherval"]
     lim_matters = f["lim_model"] != f["lim_otherval"]
     ctx.bucket("option_matters", f"tau={tau_matters}/limit={lim_matters}")
